@@ -185,4 +185,533 @@ theorem IdInvL.toIdInv {A : IdWorld} (h : IdInvL A) : IdInv A := by
       · exfalso
         exact hxU ((hmem x).2 ⟨r, _, hu, hsh⟩)
 
+/-! ## a rank-local change of an `IdWorld` -/
+
+/-- If `A'` differs from `A` on rank `r` only, `IdInvL A'` follows from `IdInvL A` and the obligations on rank `r`:
+    the per-rank clauses for the new lists, every shared id that rank `r` held (live or unused) is still held by
+    rank `r` or live elsewhere, a shared id in the new unused list of `r` is held by nobody else, and a shared id
+    in the new live list of `r` is in nobody else's unused list. -/
+theorem IdInvL.update {A A' : IdWorld} (h : IdInvL A) (r : Nat)
+    (hold : A'.old = A.old) (hlk : A'.live.length = A'.k.length) (hlu : A'.unused.length = A'.k.length)
+    (hoL : ∀ q, q ≠ r → A'.liveOf q = A.liveOf q) (hoU : ∀ q, q ≠ r → A'.unusedOf q = A.unusedOf q)
+    (hoK : ∀ q, q ≠ r → A'.kOf q = A.kOf q)
+    (nodupL : (A'.liveOf r).Nodup) (nodupU : (A'.unusedOf r).Nodup)
+    (disj : ∀ g, g ∈ A'.liveOf r → g ∉ A'.unusedOf r)
+    (rangeL : ∀ g, g ∈ A'.liveOf r → 0 ≤ g ∧ g < A.old + (A'.kOf r : Nat))
+    (rangeU : ∀ g, g ∈ A'.unusedOf r → 0 ≤ g ∧ g < A.old + (A'.kOf r : Nat))
+    (fresh : ∀ g, A.old ≤ g → g < A.old + (A'.kOf r : Nat) → g ∈ A'.liveOf r ∨ g ∈ A'.unusedOf r)
+    (cov : ∀ g, 0 ≤ g → g < A.old → (g ∈ A.liveOf r ∨ g ∈ A.unusedOf r) →
+      g ∈ A'.liveOf r ∨ g ∈ A'.unusedOf r ∨ ∃ q, q ≠ r ∧ g ∈ A.liveOf q)
+    (exclU : ∀ g, g < A.old → g ∈ A'.unusedOf r → ∀ q, q ≠ r → g ∉ A.liveOf q ∧ g ∉ A.unusedOf q)
+    (exclL : ∀ g, g < A.old → g ∈ A'.liveOf r → ∀ q, q ≠ r → g ∉ A.unusedOf q) : IdInvL A' := by
+  refine ⟨by rw [hold]; exact h.old_nonneg, hlk, hlu, ?_, ?_, ?_, ?_, ?_, ?_, ?_, ?_, ?_⟩
+  · intro q
+    by_cases hq : q = r
+    · subst hq; exact nodupL
+    · rw [hoL q hq]; exact h.live_nodup q
+  · intro q
+    by_cases hq : q = r
+    · subst hq; exact nodupU
+    · rw [hoU q hq]; exact h.unused_nodup q
+  · intro q g
+    by_cases hq : q = r
+    · subst hq; exact disj g
+    · rw [hoL q hq, hoU q hq]; exact h.disj q g
+  · intro q g
+    by_cases hq : q = r
+    · subst hq; rw [hold]; exact rangeL g
+    · rw [hoL q hq, hoK q hq, hold]; exact h.live_range q g
+  · intro q g
+    by_cases hq : q = r
+    · subst hq; rw [hold]; exact rangeU g
+    · rw [hoU q hq, hoK q hq, hold]; exact h.unused_range q g
+  · intro q g
+    by_cases hq : q = r
+    · subst hq; rw [hold]; exact fresh g
+    · rw [hoL q hq, hoU q hq, hoK q hq, hold]; exact h.fresh_cov q g
+  · intro g h0 hlt
+    rw [hold] at hlt
+    have key : ∀ q, (g ∈ A.liveOf q ∨ g ∈ A.unusedOf q) → (∃ q, g ∈ A'.liveOf q) ∨ (∃ q, g ∈ A'.unusedOf q) := by
+      intro q hq
+      by_cases hqr : q = r
+      · subst hqr
+        rcases cov g h0 hlt hq with h1 | h1 | ⟨p, hp, h1⟩
+        · exact Or.inl ⟨q, h1⟩
+        · exact Or.inr ⟨q, h1⟩
+        · exact Or.inl ⟨p, by rw [hoL p hp]; exact h1⟩
+      · rcases hq with h1 | h1
+        · exact Or.inl ⟨q, by rw [hoL q hqr]; exact h1⟩
+        · exact Or.inr ⟨q, by rw [hoU q hqr]; exact h1⟩
+    rcases h.old_cov g h0 hlt with ⟨q, hq⟩ | ⟨q, hq⟩
+    · exact key q (Or.inl hq)
+    · exact key q (Or.inr hq)
+  · intro g p q hlt hu hl
+    rw [hold] at hlt
+    by_cases hp : p = r
+    · subst hp
+      by_cases hq : q = p
+      · subst hq; exact disj g hl hu
+      · rw [hoL q hq] at hl
+        exact (exclU g hlt hu q hq).1 hl
+    · rw [hoU p hp] at hu
+      by_cases hq : q = r
+      · subst hq
+        exact exclL g hlt hl p hp hu
+      · rw [hoL q hq] at hl
+        exact h.old_excl g p q hlt hu hl
+  · intro g p q hlt hu hu'
+    rw [hold] at hlt
+    by_cases hp : p = r
+    · by_cases hq : q = r
+      · rw [hp, hq]
+      · subst hp
+        rw [hoU q hq] at hu'
+        exact absurd hu' (exclU g hlt hu q hq).2
+    · by_cases hq : q = r
+      · subst hq
+        rw [hoU p hp] at hu
+        exact absurd hu (exclU g hlt hu' p hp).2
+      · rw [hoU p hp] at hu
+        rw [hoU q hq] at hu'
+        exact h.old_uniq g p q hlt hu hu'
+
+/-! ## accessors of `absWorld` -/
+
+theorem mem_unusedArr (s : NodeIds) (g : Int) : g ∈ unusedArr s ↔ g ∈ s.unusedStk := by
+  simp [unusedArr]
+
+theorem liveOf_abs_some {old : Int} {w : World NodeIds} {q : Nat} {s : NodeIds} (h : w[q]? = some s) :
+    (absWorld old w).liveOf q = s.keys := by
+  simp [IdWorld.liveOf, absWorld, List.getD_eq_getElem?_getD, List.getElem?_map, h]
+
+theorem liveOf_abs_none {old : Int} {w : World NodeIds} {q : Nat} (h : w[q]? = none) :
+    (absWorld old w).liveOf q = [] := by
+  simp [IdWorld.liveOf, absWorld, List.getD_eq_getElem?_getD, List.getElem?_map, h]
+
+theorem unusedOf_abs_some {old : Int} {w : World NodeIds} {q : Nat} {s : NodeIds} (h : w[q]? = some s) :
+    (absWorld old w).unusedOf q = unusedArr s := by
+  simp [IdWorld.unusedOf, absWorld, List.getD_eq_getElem?_getD, List.getElem?_map, h]
+
+theorem unusedOf_abs_none {old : Int} {w : World NodeIds} {q : Nat} (h : w[q]? = none) :
+    (absWorld old w).unusedOf q = [] := by
+  simp [IdWorld.unusedOf, absWorld, List.getD_eq_getElem?_getD, List.getElem?_map, h]
+
+theorem kOf_abs_some {old : Int} {w : World NodeIds} {q : Nat} {s : NodeIds} (h : w[q]? = some s) :
+    (absWorld old w).kOf q = (newNodes s).toNat := by
+  simp [IdWorld.kOf, absWorld, List.getD_eq_getElem?_getD, List.getElem?_map, h]
+
+theorem kOf_abs_none {old : Int} {w : World NodeIds} {q : Nat} (h : w[q]? = none) :
+    (absWorld old w).kOf q = 0 := by
+  simp [IdWorld.kOf, absWorld, List.getD_eq_getElem?_getD, List.getElem?_map, h]
+
+theorem getElem?_set_ne' {w : World NodeIds} {r q : Nat} (s' : NodeIds) (h : q ≠ r) :
+    (w.set r s')[q]? = w[q]? := by
+  rw [List.getElem?_set]; simp [Ne.symm h]
+
+theorem getElem?_set_self' {w : World NodeIds} {r : Nat} (s' : NodeIds) (h : r < w.length) :
+    (w.set r s')[r]? = some s' := by
+  rw [List.getElem?_set]; simp [h]
+
+/-- what `IdInvL (absWorld old w)` says about one rank, in terms of the fields of its `NodeIds` -/
+theorem rank_facts {old : Int} {w : World NodeIds} (hI : IdInvL (absWorld old w)) {r : Nat} {s : NodeIds}
+    (hr : w[r]? = some s) (ho : s.oldN = old) (hn : old ≤ s.newN) :
+    s.unusedStk.Nodup ∧ (∀ g, g ∈ s.keys → g ∉ s.unusedStk) ∧ (∀ g, g ∈ s.keys → 0 ≤ g ∧ g < s.newN) ∧
+    (∀ g, g ∈ s.unusedStk → 0 ≤ g ∧ g < s.newN) ∧
+    (∀ g, old ≤ g → g < s.newN → g ∈ s.keys ∨ g ∈ s.unusedStk) := by
+  have hk : (absWorld old w).old + (((absWorld old w).kOf r : Nat) : Int) = s.newN := by
+    rw [kOf_abs_some hr]
+    show old + _ = _
+    unfold newNodes
+    omega
+  have h1 := hI.unused_nodup r
+  have h2 := hI.disj r
+  have h3 := hI.live_range r
+  have h4 := hI.unused_range r
+  have h5 := hI.fresh_cov r
+  rw [hk] at h3 h4 h5
+  rw [unusedOf_abs_some hr] at h1 h2 h4 h5
+  rw [liveOf_abs_some hr] at h2 h3 h5
+  refine ⟨?_, ?_, h3, ?_, ?_⟩
+  · simpa [unusedArr] using h1
+  · intro g hg; have := h2 g hg; simpa [mem_unusedArr] using this
+  · intro g hg; exact h4 g ((mem_unusedArr s g).2 hg)
+  · intro g hg1 hg2
+    rcases h5 g hg1 hg2 with h | h
+    · exact Or.inl h
+    · exact Or.inr ((mem_unusedArr s g).1 h)
+
+/-- the world-level form of `IdInvL.update`: rank `r` of `w` is replaced by `s'` -/
+theorem absWorld_update {old : Int} {w : World NodeIds} (hI : IdInvL (absWorld old w)) {r : Nat} {s : NodeIds}
+    (hr : w[r]? = some s) (s' : NodeIds) (hn' : old ≤ s'.newN) (ho' : s'.oldN = old)
+    (nodupL : s'.keys.Nodup) (nodupU : s'.unusedStk.Nodup)
+    (disj : ∀ g, g ∈ s'.keys → g ∉ s'.unusedStk)
+    (rangeL : ∀ g, g ∈ s'.keys → 0 ≤ g ∧ g < s'.newN)
+    (rangeU : ∀ g, g ∈ s'.unusedStk → 0 ≤ g ∧ g < s'.newN)
+    (fresh : ∀ g, old ≤ g → g < s'.newN → g ∈ s'.keys ∨ g ∈ s'.unusedStk)
+    (cov : ∀ g, 0 ≤ g → g < old → (g ∈ s.keys ∨ g ∈ s.unusedStk) →
+      g ∈ s'.keys ∨ g ∈ s'.unusedStk ∨ ∃ q, q ≠ r ∧ g ∈ (absWorld old w).liveOf q)
+    (exclU : ∀ g, g < old → g ∈ s'.unusedStk → ∀ q, q ≠ r →
+      g ∉ (absWorld old w).liveOf q ∧ g ∉ (absWorld old w).unusedOf q)
+    (exclL : ∀ g, g < old → g ∈ s'.keys → ∀ q, q ≠ r → g ∉ (absWorld old w).unusedOf q) :
+    IdInvL (absWorld old (w.set r s')) := by
+  have hrl : r < w.length := by
+    rcases List.getElem?_eq_some_iff.1 hr with ⟨h, _⟩; exact h
+  have hself := getElem?_set_self' (w := w) s' hrl
+  have hk : old + ((((absWorld old (w.set r s')).kOf r : Nat)) : Int) = s'.newN := by
+    rw [kOf_abs_some hself]
+    unfold newNodes
+    omega
+  have hAold : (absWorld old w).old = old := rfl
+  apply IdInvL.update (A' := absWorld old (w.set r s')) hI r rfl (by simp [absWorld]) (by simp [absWorld])
+  · intro q hq
+    cases hw : w[q]? with
+    | none => rw [liveOf_abs_none hw, liveOf_abs_none (by rw [getElem?_set_ne' s' hq]; exact hw)]
+    | some t => rw [liveOf_abs_some hw, liveOf_abs_some (by rw [getElem?_set_ne' s' hq]; exact hw)]
+  · intro q hq
+    cases hw : w[q]? with
+    | none => rw [unusedOf_abs_none hw, unusedOf_abs_none (by rw [getElem?_set_ne' s' hq]; exact hw)]
+    | some t => rw [unusedOf_abs_some hw, unusedOf_abs_some (by rw [getElem?_set_ne' s' hq]; exact hw)]
+  · intro q hq
+    cases hw : w[q]? with
+    | none => rw [kOf_abs_none hw, kOf_abs_none (by rw [getElem?_set_ne' s' hq]; exact hw)]
+    | some t => rw [kOf_abs_some hw, kOf_abs_some (by rw [getElem?_set_ne' s' hq]; exact hw)]
+  · rw [liveOf_abs_some hself]; exact nodupL
+  · rw [unusedOf_abs_some hself]; simpa [unusedArr] using nodupU
+  · rw [liveOf_abs_some hself, unusedOf_abs_some hself]
+    intro g hg; rw [mem_unusedArr]; exact disj g hg
+  · rw [liveOf_abs_some hself, hAold, hk]; exact rangeL
+  · rw [unusedOf_abs_some hself, hAold, hk]
+    intro g hg; exact rangeU g ((mem_unusedArr _ _).1 hg)
+  · rw [liveOf_abs_some hself, unusedOf_abs_some hself, hAold, hk]
+    intro g h1 h2
+    rcases fresh g h1 h2 with h | h
+    · exact Or.inl h
+    · exact Or.inr ((mem_unusedArr _ _).2 h)
+  · rw [liveOf_abs_some hself, unusedOf_abs_some hself, liveOf_abs_some hr, unusedOf_abs_some hr, hAold]
+    intro g h0 h1 h2
+    rw [mem_unusedArr] at h2 ⊢
+    exact cov g h0 h1 h2
+  · rw [unusedOf_abs_some hself, hAold]
+    intro g h1 h2
+    exact exclU g h1 ((mem_unusedArr _ _).1 h2)
+  · rw [liveOf_abs_some hself, hAold]
+    exact exclL
+
+/-! ## per-rank facts about the literal `NodeIds` functions -/
+
+theorem keys_nodup {s : NodeIds} (h : NodeInv s) : s.keys.Nodup :=
+  h.srt.sorted.imp fun hab => Int.ne_of_lt hab
+
+theorem mem_keys_iff_live {s : NodeIds} (h : NodeInv s) {g : Int} : g ∈ s.keys ↔ s.liveSlot g ≠ none := by
+  rw [mem_keys_iff h]
+  constructor
+  · rintro ⟨v, hv⟩ hn
+    rw [(liveSlot_eq_some_iff h).2 hv] at hn
+    cases hn
+  · intro hn
+    cases hl : s.liveSlot g with
+    | none => exact absurd hl hn
+    | some v => exact ⟨v, (liveSlot_eq_some_iff h).1 hl⟩
+
+theorem add_keys {s : NodeIds} (h : NodeInv s) {g : Int} (hg : 0 ≤ g) (x : Int) :
+    x ∈ (s.add g).2.2.keys ↔ x = g ∨ x ∈ s.keys := by
+  rw [mem_keys_iff_live (add_NodeInv h hg).2, add_live h hg, mem_keys_iff_live h]
+  split
+  · rename_i hx; simp [hx]
+  · rename_i hx; simp [hx]
+
+theorem add_fields (s : NodeIds) (g : Int) :
+    (s.add g).2.2.unusedStk = s.unusedStk ∧ (s.add g).2.2.newN = s.newN ∧ (s.add g).2.2.oldN = s.oldN := by
+  by_cases hg : g < 0
+  · rw [Refine.Model.NodeIds.add_neg hg]; exact ⟨rfl, rfl, rfl⟩
+  · have hg' : 0 ≤ g := by omega
+    cases hm : NodeIds.searchGlob s.keys g with
+    | some loc => rw [add_hit hg' hm]; exact ⟨rfl, rfl, rfl⟩
+    | none => rw [add_miss hg' hm]; simp
+
+theorem remove_keys {s : NodeIds} (h : NodeInv s) {node : Int} (hv : s.validSlot node = true) (x : Int) :
+    x ∈ (s.remove node).2.keys ↔ x ≠ s.global.getD node.toNat (-1) ∧ x ∈ s.keys := by
+  rw [mem_keys_iff_live (remove_NodeInv h hv).2, remove_live h hv, mem_keys_iff_live h]
+  split
+  · rename_i hx; exact ⟨fun h => absurd rfl h, fun h => absurd hx h.1⟩
+  · rename_i hx; exact ⟨fun h => ⟨hx, h⟩, fun h => h.2⟩
+
+theorem rwg_fields {s : NodeIds} (h : NodeInv s) {node : Int} (hv : s.validSlot node = true) :
+    (s.removeWithoutGlobal node).2.global = s.global.set node.toNat s.blank ∧
+    (s.removeWithoutGlobal node).2.unusedStk = s.unusedStk ∧
+    (s.removeWithoutGlobal node).2.newN = s.newN ∧ (s.removeWithoutGlobal node).2.oldN = s.oldN := by
+  obtain ⟨_, hv2⟩ := validSlot_iff.1 hv
+  obtain ⟨loc, hloc, _, _⟩ := search_valid h hv2
+  rw [removeWithoutGlobal_eq hv hloc]
+  simp [NodeIds.freeSlot]
+
+theorem rwg_keys {s : NodeIds} (h : NodeInv s) {node : Int} (hv : s.validSlot node = true) (x : Int) :
+    x ∈ (s.removeWithoutGlobal node).2.keys ↔ x ≠ s.global.getD node.toNat (-1) ∧ x ∈ s.keys := by
+  obtain ⟨_, hv2⟩ := validSlot_iff.1 hv
+  have h' := (removeWithoutGlobal_NodeInv h hv).2
+  rw [mem_keys_iff_live h', freed_live h h' hv2 (rwg_fields h hv).1 x, mem_keys_iff_live h]
+  split
+  · rename_i hx; exact ⟨fun h => absurd rfl h, fun h => absurd hx h.1⟩
+  · rename_i hx; exact ⟨fun h => ⟨hx, h⟩, fun h => h.2⟩
+
+theorem globalOf_valid {s : NodeIds} {node : Int} (hv : s.validSlot node = true) :
+    s.globalOf node = s.global.getD node.toNat (-1) := by
+  simp [NodeIds.globalOf, hv]
+
+theorem slot_mem_keys {s : NodeIds} (h : NodeInv s) {node : Int} (hv : s.validSlot node = true) :
+    s.global.getD node.toNat (-1) ∈ s.keys :=
+  (mem_keys_iff h).2 ⟨node.toNat, (validSlot_iff.1 hv).2, rfl⟩
+
+theorem nextGlobal_nil' {s : NodeIds} (hu : s.unusedStk = []) (hn : s.newN ≠ -1) :
+    s.nextGlobal = (.ok, s.newN, { s with newN := s.newN + 1 }) := by
+  rw [nextGlobal_nil hu]
+  simp [NodeIds.effNew, hn]
+
+/-! ## the concrete invariant and the local steps -/
+
+/-- the invariant carried along a history, for a given `old_n_global` -/
+def WorldInvAt (old : Int) (w : World NodeIds) : Prop :=
+  (∀ s ∈ w, s.oldN = old ∧ old ≤ s.newN ∧ NodeInv s) ∧ IdInvL (absWorld old w)
+
+/-- **the invariant carried along a history**: every rank has the same `old_n_global = old ≤ new_n_global` and
+    satisfies the `ref_node` structure invariant `NodeInv`; the abstraction of the world (fresh-id counts, live
+    ids = `sorted_global`, unused ids) satisfies the local id invariant `IdInvL`. -/
+def WorldInv (w : World NodeIds) : Prop := ∃ old, WorldInvAt old w
+
+theorem getElem?_mem' {w : World NodeIds} {r : Nat} {s : NodeIds} (h : w[r]? = some s) : s ∈ w := by
+  rcases List.getElem?_eq_some_iff.1 h with ⟨hl, rfl⟩
+  exact List.getElem_mem hl
+
+/-- shared ids in the unused list of rank `r` are held by nobody else -/
+theorem othersU {old : Int} {w : World NodeIds} (hI : IdInvL (absWorld old w)) {r : Nat} {s : NodeIds}
+    (hr : w[r]? = some s) (x : Int) (hlt : x < old) (hx : x ∈ s.unusedStk) (q : Nat) (hq : q ≠ r) :
+    x ∉ (absWorld old w).liveOf q ∧ x ∉ (absWorld old w).unusedOf q := by
+  have hxu : x ∈ (absWorld old w).unusedOf r := by
+    rw [unusedOf_abs_some hr, mem_unusedArr]; exact hx
+  exact ⟨hI.old_excl x r q hlt hxu, fun hx' => hq (hI.old_uniq x r q hlt hxu hx').symm⟩
+
+/-- shared ids live on rank `r` are in nobody's unused list -/
+theorem othersL {old : Int} {w : World NodeIds} (hI : IdInvL (absWorld old w)) {r : Nat} {s : NodeIds}
+    (hr : w[r]? = some s) (x : Int) (hlt : x < old) (hx : x ∈ s.keys) (q : Nat) :
+    x ∉ (absWorld old w).unusedOf q := by
+  have hxl : x ∈ (absWorld old w).liveOf r := by rw [liveOf_abs_some hr]; exact hx
+  exact fun hx' => hI.old_excl x q r hlt hx' hxl
+
+theorem WorldInvAt_set {old : Int} {w : World NodeIds} (h : WorldInvAt old w) {r : Nat} (s' : NodeIds)
+    (hN : NodeInv s') (ho' : s'.oldN = old) (hn' : old ≤ s'.newN)
+    (hI' : IdInvL (absWorld old (w.set r s'))) : WorldInvAt old (w.set r s') := by
+  refine ⟨?_, hI'⟩
+  intro t ht
+  rcases List.mem_or_eq_of_mem_set ht with ht | rfl
+  · exact h.1 t ht
+  · exact ⟨ho', hn', hN⟩
+
+/-- `ref_node_next_global` then `ref_node_add` of the returned id on rank `r`: both calls succeed, the invariant is
+    preserved, the returned slot is valid and holds the returned id, and if that id is a shared one nobody else
+    has it live (it came from this rank's unused list). -/
+theorem addFresh_core {old : Int} {w : World NodeIds} (h : WorldInvAt old w) {r : Nat} {s : NodeIds}
+    (hr : w[r]? = some s) :
+    s.nextGlobal.1 = .ok ∧ (s.nextGlobal.2.2.add s.nextGlobal.2.1).1 = .ok ∧
+    WorldInvAt old (w.set r (s.nextGlobal.2.2.add s.nextGlobal.2.1).2.2) ∧
+    (s.nextGlobal.2.2.add s.nextGlobal.2.1).2.2.validSlot ((s.nextGlobal.2.2.add s.nextGlobal.2.1).2.1 : Int) = true ∧
+    (s.nextGlobal.2.2.add s.nextGlobal.2.1).2.2.global.getD (s.nextGlobal.2.2.add s.nextGlobal.2.1).2.1 (-1)
+      = s.nextGlobal.2.1 ∧
+    (s.nextGlobal.2.1 < old → ∀ q, q ≠ r → s.nextGlobal.2.1 ∉ (absWorld old w).liveOf q) := by
+  obtain ⟨ho, hn, hN⟩ := h.1 s (getElem?_mem' hr)
+  have hI := h.2
+  have hold0 : 0 ≤ old := hI.old_nonneg
+  obtain ⟨hU, hD, hRL, hRU, hF⟩ := rank_facts hI hr ho hn
+  -- the slot facts, once `NodeInv` of the pre-`add` state and `0 ≤ g` are known
+  have slot : ∀ (s1 : NodeIds) (g : Int), NodeInv s1 → 0 ≤ g →
+      (s1.add g).2.2.validSlot ((s1.add g).2.1 : Int) = true ∧
+      (s1.add g).2.2.global.getD (s1.add g).2.1 (-1) = g := by
+    intro s1 g h1 hg
+    have hl := add_live h1 hg g
+    rw [if_pos rfl] at hl
+    have := (liveSlot_eq_some_iff (add_NodeInv h1 hg).2).1 hl
+    exact ⟨validSlot_of_getD (by rw [this.2]; exact hg), this.2⟩
+  cases hu : s.unusedStk with
+  | cons g rest =>
+    rw [nextGlobal_cons hu]
+    simp only []
+    rw [hu] at hU hD hRU hF
+    have h1 : NodeInv { s with unusedStk := rest } := hN.congr rfl rfl rfl rfl
+    have hg0 : 0 ≤ g := (hRU g (by simp)).1
+    have hK := add_keys h1 hg0
+    obtain ⟨fU, fN, fO⟩ := add_fields { s with unusedStk := rest } g
+    have hN' := (add_NodeInv h1 hg0)
+    have hgu : g ∈ s.unusedStk := by rw [hu]; simp
+    refine ⟨by trivial, hN'.1, ?_, (slot _ g h1 hg0).1, (slot _ g h1 hg0).2, ?_⟩
+    · apply WorldInvAt_set h _ hN'.2 (by rw [fO]; exact ho) (by rw [fN]; exact hn)
+      apply absWorld_update hI hr _ (by rw [fN]; exact hn) (by rw [fO]; exact ho) (keys_nodup hN'.2)
+      · rw [fU]; exact (List.nodup_cons.1 hU).2
+      · intro x hx
+        rw [fU]
+        rcases (hK x).1 hx with rfl | hx
+        · exact (List.nodup_cons.1 hU).1
+        · exact fun hm => hD x hx (List.mem_cons_of_mem _ hm)
+      · intro x hx
+        rw [fN]
+        rcases (hK x).1 hx with rfl | hx
+        · exact hRU x (by simp)
+        · exact hRL x hx
+      · intro x hx
+        rw [fU] at hx; rw [fN]
+        exact hRU x (List.mem_cons_of_mem _ hx)
+      · intro x hx1 hx2
+        rw [fN] at hx2; rw [fU]
+        rcases hF x hx1 hx2 with hx | hx
+        · exact Or.inl ((hK x).2 (Or.inr hx))
+        · rcases List.mem_cons.1 hx with rfl | hx
+          · exact Or.inl ((hK x).2 (Or.inl rfl))
+          · exact Or.inr hx
+      · intro x _ _ hx
+        rw [fU]
+        rcases hx with hx | hx
+        · exact Or.inl ((hK x).2 (Or.inr hx))
+        · rw [hu] at hx
+          rcases List.mem_cons.1 hx with rfl | hx
+          · exact Or.inl ((hK x).2 (Or.inl rfl))
+          · exact Or.inr (Or.inl hx)
+      · intro x hlt hx q hq
+        rw [fU] at hx
+        exact othersU hI hr x hlt (by rw [hu]; exact List.mem_cons_of_mem _ hx) q hq
+      · intro x hlt hx q hq
+        rcases (hK x).1 hx with rfl | hx
+        · exact (othersU hI hr x hlt hgu q hq).2
+        · exact othersL hI hr x hlt hx q
+    · intro hlt q hq
+      exact (othersU hI hr g hlt hgu q hq).1
+  | nil =>
+    have hne : s.newN ≠ -1 := by omega
+    rw [nextGlobal_nil' hu hne]
+    simp only []
+    rw [hu] at hF
+    have h1 : NodeInv { s with newN := s.newN + 1 } := hN.congr rfl rfl rfl rfl
+    have hg0 : 0 ≤ s.newN := by omega
+    have hK := add_keys h1 hg0
+    obtain ⟨fU, fN, fO⟩ := add_fields { s with newN := s.newN + 1 } s.newN
+    have hN' := (add_NodeInv h1 hg0)
+    replace fU := fU.trans hu
+    replace fN : _ = s.newN + 1 := fN
+    refine ⟨by trivial, hN'.1, ?_, (slot _ _ h1 hg0).1, (slot _ _ h1 hg0).2, ?_⟩
+    · apply WorldInvAt_set h _ hN'.2 (by rw [fO]; exact ho) (by rw [fN]; omega)
+      apply absWorld_update hI hr _ (by rw [fN]; omega) (by rw [fO]; exact ho) (keys_nodup hN'.2)
+      · rw [fU]; exact List.nodup_nil
+      · intro x _; rw [fU]; simp
+      · intro x hx
+        rw [fN]
+        rcases (hK x).1 hx with rfl | hx
+        · omega
+        · have := hRL x hx; omega
+      · intro x hx; rw [fU] at hx; simp at hx
+      · intro x hx1 hx2
+        rw [fN] at hx2
+        by_cases hxe : x = s.newN
+        · exact Or.inl ((hK x).2 (Or.inl hxe))
+        · rcases hF x hx1 (by omega) with hx | hx
+          · exact Or.inl ((hK x).2 (Or.inr hx))
+          · simp at hx
+      · intro x _ _ hx
+        rcases hx with hx | hx
+        · exact Or.inl ((hK x).2 (Or.inr hx))
+        · rw [hu] at hx; simp at hx
+      · intro x _ hx; rw [fU] at hx; simp at hx
+      · intro x hlt hx q _
+        rcases (hK x).1 hx with rfl | hx
+        · omega
+        · exact othersL hI hr x hlt hx q
+    · intro hlt; omega
+
+/-- `ref_node_remove(node)` on rank `r`, under the ownership guard: the slot is valid and, if its id is a shared
+    id, no other rank has it live -/
+theorem remove_core {old : Int} {w : World NodeIds} (h : WorldInvAt old w) {r : Nat} {s : NodeIds}
+    (hr : w[r]? = some s) {node : Int} (hv : s.validSlot node = true)
+    (hguard : s.global.getD node.toNat (-1) < old → ∀ q, q ≠ r →
+      s.global.getD node.toNat (-1) ∉ (absWorld old w).liveOf q) :
+    WorldInvAt old (w.set r (s.remove node).2) := by
+  obtain ⟨ho, hn, hN⟩ := h.1 s (getElem?_mem' hr)
+  have hI := h.2
+  obtain ⟨hU, hD, hRL, hRU, hF⟩ := rank_facts hI hr ho hn
+  have hN' := (remove_NodeInv hN hv).2
+  obtain ⟨_, _, _, fU, fN, fO⟩ := remove_fields hN hv
+  have hK := remove_keys hN hv
+  have hgk := slot_mem_keys hN hv
+  generalize s.global.getD node.toNat (-1) = g at *
+  apply WorldInvAt_set h _ hN' (by rw [fO]; exact ho) (by rw [fN]; exact hn)
+  apply absWorld_update hI hr _ (by rw [fN]; exact hn) (by rw [fO]; exact ho) (keys_nodup hN')
+  · rw [fU]; exact List.nodup_cons.2 ⟨hD g hgk, hU⟩
+  · intro x hx
+    rw [fU]
+    obtain ⟨hxg, hx⟩ := (hK x).1 hx
+    intro hm
+    rcases List.mem_cons.1 hm with hm | hm
+    · exact hxg hm
+    · exact hD x hx hm
+  · intro x hx; rw [fN]; exact hRL x ((hK x).1 hx).2
+  · intro x hx
+    rw [fU] at hx; rw [fN]
+    rcases List.mem_cons.1 hx with rfl | hx
+    · exact hRL x hgk
+    · exact hRU x hx
+  · intro x hx1 hx2
+    rw [fN] at hx2; rw [fU]
+    by_cases hxg : x = g
+    · exact Or.inr (by rw [hxg]; simp)
+    · rcases hF x hx1 hx2 with hx | hx
+      · exact Or.inl ((hK x).2 ⟨hxg, hx⟩)
+      · exact Or.inr (List.mem_cons_of_mem _ hx)
+  · intro x _ _ hx
+    rw [fU]
+    by_cases hxg : x = g
+    · exact Or.inr (Or.inl (by rw [hxg]; simp))
+    · rcases hx with hx | hx
+      · exact Or.inl ((hK x).2 ⟨hxg, hx⟩)
+      · exact Or.inr (Or.inl (List.mem_cons_of_mem _ hx))
+  · intro x hlt hx q hq
+    rw [fU] at hx
+    rcases List.mem_cons.1 hx with rfl | hx
+    · exact ⟨hguard hlt q hq, othersL hI hr x hlt hgk q⟩
+    · exact othersU hI hr x hlt hx q hq
+  · intro x hlt hx q _
+    exact othersL hI hr x hlt ((hK x).1 hx).2 q
+
+/-- `ref_node_remove_without_global(node)` on rank `r`, under the ghost guard: the slot is valid, its id is a
+    shared id and some other rank has it live -/
+theorem removeWithoutGlobal_core {old : Int} {w : World NodeIds} (h : WorldInvAt old w) {r : Nat} {s : NodeIds}
+    (hr : w[r]? = some s) {node : Int} (hv : s.validSlot node = true)
+    (hlt : s.global.getD node.toNat (-1) < old)
+    (hex : ∃ q, q ≠ r ∧ s.global.getD node.toNat (-1) ∈ (absWorld old w).liveOf q) :
+    WorldInvAt old (w.set r (s.removeWithoutGlobal node).2) := by
+  obtain ⟨ho, hn, hN⟩ := h.1 s (getElem?_mem' hr)
+  have hI := h.2
+  obtain ⟨hU, hD, hRL, hRU, hF⟩ := rank_facts hI hr ho hn
+  have hN' := (removeWithoutGlobal_NodeInv hN hv).2
+  obtain ⟨_, fU, fN, fO⟩ := rwg_fields hN hv
+  have hK := rwg_keys hN hv
+  generalize s.global.getD node.toNat (-1) = g at *
+  apply WorldInvAt_set h _ hN' (by rw [fO]; exact ho) (by rw [fN]; exact hn)
+  apply absWorld_update hI hr _ (by rw [fN]; exact hn) (by rw [fO]; exact ho) (keys_nodup hN')
+  · rw [fU]; exact hU
+  · intro x hx; rw [fU]; exact hD x ((hK x).1 hx).2
+  · intro x hx; rw [fN]; exact hRL x ((hK x).1 hx).2
+  · intro x hx; rw [fU] at hx; rw [fN]; exact hRU x hx
+  · intro x hx1 hx2
+    rw [fN] at hx2; rw [fU]
+    rcases hF x hx1 hx2 with hx | hx
+    · exact Or.inl ((hK x).2 ⟨by omega, hx⟩)
+    · exact Or.inr hx
+  · intro x _ _ hx
+    rw [fU]
+    rcases hx with hx | hx
+    · by_cases hxg : x = g
+      · subst hxg; exact Or.inr (Or.inr hex)
+      · exact Or.inl ((hK x).2 ⟨hxg, hx⟩)
+    · exact Or.inr (Or.inl hx)
+  · intro x hlt' hx q hq
+    rw [fU] at hx
+    exact othersU hI hr x hlt' hx q hq
+  · intro x hlt' hx q _
+    exact othersL hI hr x hlt' ((hK x).1 hx).2 q
+
 end Refine.Lemmas.DistIds
